@@ -340,7 +340,7 @@ def _c13_non_atom(case, observed):
     atom: AddMarkStep only marks atoms, so that node does not get the mark (while Transform.add_mark still strips
     the marks the new one excludes from it)."""
     op = case.get("op") or {}
-    if op.get("op") != "add_mark":
+    if op.get("op") not in ("add_mark", "add_mark_step"):
         return False
     from . import adapters
     from .ref import positions as rp
